@@ -385,6 +385,7 @@ type Clause struct {
 	LArgs  []*SExpr
 	Line   int
 	Ord    int // ordinal among clauses of the same kind in this contract
+	Int    int
 }
 
 type FuncContract struct {
@@ -407,6 +408,7 @@ type FuncContract struct {
 	Induct   string
 	LemmaSig []string // kinds of lemma params: int, seq, bool
 	NoSweep  bool
+	Inline   bool // callers lower the body in place instead of using the contract
 }
 
 type TypeInvariant struct {
@@ -423,6 +425,16 @@ type Contracts struct {
 	Aliases  [][2]string
 	Lemmas   map[string]*FuncContract
 	Errors   []string
+	Preds    map[string]*Pred
+	GhostFields map[string]map[string]string // type key (short) -> field -> kind
+}
+
+// Pred is a named spec macro: pred Name(p *T, x int) = expr
+type Pred struct {
+	Name   string
+	Params []string
+	Body   *SExpr
+	Pkg    string
 }
 
 // importAlias maps qualifiers used in contract headers to import paths.
@@ -431,10 +443,12 @@ var importAlias = map[string]string{
 	"io": "io", "sync": "sync", "fmt": "fmt", "os": "os", "regexp": "regexp", "sort": "sort",
 }
 
+var ghostFieldTable map[string]map[string]string
+
 var clauseKeywords = map[string]bool{
 	"requires": true, "ensures": true, "ensures-always": true, "modifies": true, "may-panic": true,
 	"loop": true, "assert": true, "ghost": true, "lemma": true, "public": true, "assume": true,
-	"induction": true, "nosweep": true, "cover": true,
+	"induction": true, "nosweep": true, "cover": true, "inline": true, "assume-fresh": true, "class": true,
 }
 
 func parseTags(s string) (tags []string, rest string) {
@@ -483,7 +497,11 @@ func (cs *Contracts) parseContractText(pkgPath, file string, text string, baseLi
 			}
 			continue
 		}
-		isHeader := first == "func" || first == "invariant" || first == "ghostvar" || first == "alias" || (first == "assume" && strings.HasPrefix(t, "assume func")) ||
+		if first == "pred" {
+			items = append(items, item{baseLine + i, t})
+			continue
+		}
+		isHeader := first == "func" || first == "invariant" || first == "ghostvar" || first == "ghostfield" || first == "alias" || (first == "assume" && strings.HasPrefix(t, "assume func")) ||
 			(first == "pure" && strings.HasPrefix(t, "pure func")) || (first == "assume" && strings.HasPrefix(t, "assume pure func"))
 		if isHeader || clauseKeywords[first] {
 			items = append(items, item{baseLine + i, t})
@@ -503,6 +521,45 @@ func (cs *Contracts) parseContractText(pkgPath, file string, text string, baseLi
 			cs.Errors = append(cs.Errors, fmt.Sprintf("%s:%d: %s", file, it.line, fmt.Sprintf(format, a...)))
 		}
 		switch {
+		case first == "pred":
+			// pred Name(a, b) = expr
+			rest := strings.TrimSpace(strings.TrimPrefix(t, "pred"))
+			eq := strings.Index(rest, "=")
+			lp, rp := strings.Index(rest, "("), strings.Index(rest, ")")
+			if eq < 0 || lp < 0 || rp < lp || rp > eq {
+				errf("pred Name(params) = expr")
+				continue
+			}
+			pd := &Pred{Name: strings.TrimSpace(rest[:lp]), Pkg: pkgPath}
+			for _, p := range strings.Split(rest[lp+1:rp], ",") {
+				f := strings.Fields(p)
+				if len(f) > 0 {
+					pd.Params = append(pd.Params, f[0])
+				}
+			}
+			e, err := parseSpecExpr(rest[eq+1:])
+			if err != nil {
+				errf("%v", err)
+				continue
+			}
+			pd.Body = e
+			cs.Preds[pd.Name] = pd
+			cur, curInv = nil, nil
+		case first == "ghostfield":
+			// ghostfield T.name kind
+			f := strings.Fields(t)
+			if len(f) != 3 || !strings.Contains(f[1], ".") {
+				errf("ghostfield Type.name kind")
+				continue
+			}
+			i := strings.Index(f[1], ".")
+			tk := shortPkg(pkgPath) + "." + f[1][:i]
+			if cs.GhostFields[tk] == nil {
+				cs.GhostFields[tk] = map[string]string{}
+			}
+			cs.GhostFields[tk][f[1][i+1:]] = f[2]
+			ghostFieldTable = cs.GhostFields
+			cur, curInv = nil, nil
 		case first == "ghostvar":
 			f := strings.Fields(t)
 			if len(f) != 3 {
@@ -588,8 +645,47 @@ func (cs *Contracts) parseContractText(pkgPath, file string, text string, baseLi
 			switch first {
 			case "may-panic":
 				cur.MayPanic = true
+			case "class":
+				// class K before "stmt": payload class of the arguments of calls in that statement
+				f := strings.Fields(rest)
+				idx := strings.Index(rest, " before \"")
+				if len(f) < 3 || idx < 0 {
+					errf("class K before \"stmt\"")
+					continue
+				}
+				as, err := strconv.Unquote(strings.TrimSpace(rest[idx+8:]))
+				if err != nil {
+					errf("bad anchor")
+					continue
+				}
+				k, err := strconv.Atoi(f[0])
+				if err != nil {
+					errf("class: %v", err)
+					continue
+				}
+				cur.Clauses = append(cur.Clauses, &Clause{Kind: "class", Anchor: as, Before: true, Text: rest, Int: k, Line: it.line})
+			case "assume-fresh":
+				// assume-fresh VAR after "stmt": VAR is an object nobody else holds (sync.Pool contract)
+				idx := strings.LastIndex(rest, " after \"")
+				if idx < 0 {
+					errf("assume-fresh VAR after \"stmt\"")
+					continue
+				}
+				as, err := strconv.Unquote(strings.TrimSpace(rest[idx+7:]))
+				if err != nil {
+					errf("bad anchor")
+					continue
+				}
+				e, err := parseSpecExpr(strings.TrimSpace(rest[:idx]))
+				if err != nil {
+					errf("%v", err)
+					continue
+				}
+				cur.Clauses = append(cur.Clauses, &Clause{Kind: "assume-fresh", Anchor: as, Text: rest, Expr: e, Line: it.line})
 			case "nosweep":
 				cur.NoSweep = true
+			case "inline":
+				cur.Inline = true
 			case "induction":
 				cur.Induct = rest
 			case "modifies":
@@ -605,6 +701,27 @@ func (cs *Contracts) parseContractText(pkgPath, file string, text string, baseLi
 					cur.Public = append(cur.Public, strings.TrimSpace(m))
 				}
 			case "requires", "ensures", "ensures-always", "assume", "cover":
+				if first == "assume" && (strings.Contains(rest, " after \"") || strings.Contains(rest, " before \"")) {
+					tags, body := parseTags(rest)
+					idx, before := strings.LastIndex(body, " after \""), false
+					if j := strings.LastIndex(body, " before \""); j > idx {
+						idx, before = j, true
+					}
+					payload := strings.TrimSpace(body[:idx])
+					anch := strings.TrimSpace(strings.TrimPrefix(strings.TrimPrefix(strings.TrimSpace(body[idx:]), "after"), "before"))
+					as, err := strconv.Unquote(anch)
+					if err != nil {
+						errf("bad anchor %s", anch)
+						continue
+					}
+					e, err := parseSpecExpr(payload)
+					if err != nil {
+						errf("%v", err)
+						continue
+					}
+					cur.Clauses = append(cur.Clauses, &Clause{Kind: "assume-at", Tags: tags, Anchor: as, Before: before, Text: payload, Expr: e, Line: it.line})
+					continue
+				}
 				tags, body := parseTags(rest)
 				if tags == nil {
 					tags = cur.Tags
